@@ -242,12 +242,18 @@ def _count_iter_items(iterable: Iterable[Any]) -> int:
 
 
 def routine_op_offsets_are_ordered(routine_ops: list[list[SsbOperation]]) -> bool:
+    """
+    Checks that all ops of a routine were generated after the ops of the routines before it.
+    Within a routine the offsets do not have to increase (eg. the jump to the default case of a switch
+    is generated after the case blocks before it, but placed in front of them).
+    """
     last_offset = -1
     for routine in routine_ops:
-        for op in routine:
-            if op.offset != -1 and op.offset <= last_offset:
+        offsets = [op.offset for op in routine if op.offset != -1]
+        if len(offsets) > 0:
+            if min(offsets) <= last_offset:
                 return False
-            last_offset = op.offset
+            last_offset = max(offsets)
 
     return True
 
